@@ -14,8 +14,9 @@ import subprocess
 import sys
 import time
 
-VERIF = '/verif'
-REPO = '/repo'
+# /verif and /repo; overridable so that a background run can use a snapshot of both (vp run --with-repo)
+VERIF = os.path.dirname(os.path.dirname(os.path.abspath(__file__)))
+REPO = os.environ.get('KERNPY_VERIF_REPO', '/repo')
 COQ = os.path.join(VERIF, 'coq')
 BIN = os.path.join(VERIF, 'bin')
 MODELRUN = os.path.join(BIN, 'modelrun')
